@@ -21,25 +21,53 @@ CAN = [
 ]
 
 
+def _single(lib, e, mode, very):
+    t, b = e[0], e[1]; l = e[2] if len(e) == 3 else False
+    p = lib.ColorPair(t, b, l)
+    if not p.is_valid: return ('invalid', None)
+    col, ok = p.make_readable(mode, very)
+    return ('ok', (col, lib.ColorPair(col, b, l).is_readable.lower()))
+
+
+def _single_fresh(lib, e, mode, very):
+    """the single-pair API on ONE entry, evaluated in a forked child of this still-unused worker process: whatever the library may remember
+    from one call to the next (a memo table keyed too coarsely) cannot leak from one entry into the expected value of another"""
+    import os, pickle
+    r, w = os.pipe(); pid = os.fork()
+    if pid == 0:
+        try:
+            os.close(r)
+            try: out = _single(lib, e, mode, very)
+            except BaseException as ex: out = ('raised', repr(ex))
+            os.write(w, pickle.dumps(out))
+        finally:
+            os._exit(0)
+    os.close(w); buf = b''
+    while True:
+        c = os.read(r, 65536)
+        if not c: break
+        buf += c
+    os.close(r); os.waitpid(pid, 0)
+    return pickle.loads(buf) if buf else ('raised', 'child died')
+
+
 def _twin_case(job):
     entries, mode, very = job
     lib = rtc.load_lib()
     import cm_colors.core.cm_colors as bm
+    expd = [_single_fresh(lib, tuple(e), mode, very) for e in entries]       # before the bulk call, from the pristine state
     try:
         got = bm.make_readable_bulk([tuple(e) for e in entries], mode=mode, very_readable=very)
     except Exception as e:
         return job, f'bulk raised {e!r}'
     if len(got) != len(entries): return job, f'{len(got)} results for {len(entries)} entries'
     for i, e in enumerate(entries):
-        t, b = e[0], e[1]; l = e[2] if len(e) == 3 else False
-        p = lib.ColorPair(t, b, l)
-        if not p.is_valid:
-            exp = (t, None)
+        t = e[0]; kind, exp = expd[i]
+        if kind == 'raised': return job, f'entry {i}: single-pair API raised {exp}'
+        if kind == 'invalid':
             if got[i][0] != t or got[i][1] in ('readable', 'very readable'): return job, f'entry {i} (invalid): got {got[i]!r}'
             continue
-        col, ok = p.make_readable(mode, very)
-        exp = (col, lib.ColorPair(col, b, l).is_readable.lower())
-        if got[i] != exp: return job, f'entry {i}: bulk {got[i]!r} != single-pair API {exp!r}'
+        if got[i] != exp: return job, f'entry {i}: bulk {got[i]!r} != single-pair API on a fresh interpreter state {exp!r}'
     return job, None
 
 
@@ -78,12 +106,17 @@ def run(args):
         if rng.random() < 0.5:
             g = rng.randrange(100, 150); col = '#%02x%02x%02x' % (g, g, g)      # grey on white between 3.0 and 7.0
             pairs2 = [[col, '#ffffff', True], [col, '#ffffff'], [col, '#ffffff', False]]; rng.shuffle(pairs2); entries += pairs2[:rng.randrange(2, 4)]
+        if rng.random() < 0.5:
+            # one translucent spelling on two different backgrounds in the same list (its judged colour depends on the background it is composited over)
+            a = rng.choice([0.3, 0.5, 0.6, 0.8]); c = tuple(rng.randrange(256) for _ in range(3))
+            sp = rng.choice(['rgba(%d,%d,%d,%s)' % (c + (a,)), c + (a,), 'hsla(%d,%d%%,%d%%,%s)' % (rng.randrange(360), rng.randrange(101), rng.randrange(101), a)])
+            entries += [[sp, '#000000'], [sp, '#ffffff']] if rng.random() < 0.5 else [[sp, '#ffffff', True], [sp, '#101010']]
         if rng.random() < 0.3: rng.shuffle(entries)
         jobs.append((entries, rng.randrange(3), rng.random() < 0.5))
-    with mp.get_context('fork').Pool(16) as pool:
+    with mp.get_context('fork').Pool(16, maxtasksperchild=1) as pool:      # one fresh process per list: no state survives from one list to the next
         res = pool.map(_twin_case, jobs, chunksize=1)
     bad = [(j, b) for j, b in res if b]
-    ck.bounded.append({'engine': 'E', 'what': 'make_readable_bulk on mixed 2-/3-element lists (all spellings, invalid, duplicated, permuted) vs the single-pair API entry by entry, real code', 'evaluations': sum(len(j[0]) for j in jobs) + len(jobs), 'seed': args.seed, 'bound': f'{len(jobs)} generated lists of 0..10 entries (incl. repeated spellings with the other text size)'})
+    ck.bounded.append({'engine': 'E', 'what': 'make_readable_bulk on mixed 2-/3-element lists (all spellings, invalid, duplicated, permuted) vs the single-pair API entry by entry (each expected value from a forked child of a fresh process), real code', 'evaluations': sum(len(j[0]) for j in jobs) + len(jobs), 'seed': args.seed, 'bound': f'{len(jobs)} generated lists of 0..10 entries (incl. repeated spellings with the other text size)'})
     ck.add_obligation('E', 'bulk == map(single-pair API) on generated lists (bounded)', 'failed' if bad else 'discharged', 'enumeration(bounded)')
     ck.evaluations += sum(len(j[0]) for j in jobs)
     if bad:
